@@ -577,14 +577,14 @@ theorem unequalLoop_sublist (sizes : List Int) (as : Int) :
     intro j base
     unfold unequalLoop
     split
-    · exact List.nil_sublist _
-    · split
-      · rename_i h0
-        rw [List.map_cons]
-        simp only [h0, if_true]
-        exact List.Sublist.cons_cons _ (ih _ _)
-      · rename_i h0
-        split
+    · rename_i h0
+      rw [List.map_cons]
+      simp only [h0, if_true]
+      exact List.Sublist.cons_cons _ (ih _ _)
+    · rename_i h0
+      split
+      · exact List.nil_sublist _
+      · split
         · rw [List.map_cons]
           simp only [h0, if_false]
           exact List.Sublist.cons_cons _ (ih _ _)
